@@ -34,26 +34,26 @@ type Job struct {
 
 // WorkerSummary is the last line a search worker writes.
 type WorkerSummary struct {
-	Kind        string         `json:"kind"` // "summary"
-	Runs        int            `json:"runs"`
-	Outcomes    map[string]int `json:"outcomes"`
-	EndReasons  map[string]int `json:"end_reasons"`
-	NonTrivial  int            `json:"nontrivial"`
-	Sigs        []uint64       `json:"sigs"` // hashes of behaviour signatures of non-trivial runs
-	Faults      map[string]int `json:"faults"`
-	Probes      map[string]int `json:"probes"`
-	Choices     int            `json:"choices"`
-	Steps       int64          `json:"steps"`
-	SimMs       int64          `json:"sim_ms"`
-	Preempt     int64          `json:"preemptions"`
-	SelfChecks  int            `json:"selfchecks"`
-	SelfCheckBad int           `json:"selfcheck_bad"`
-	Known       map[string]int `json:"known"`
-	Samples     []any          `json:"samples"`
-	WallS       float64        `json:"wall_s"`
-	Variants    int            `json:"variants"`
-	HarnessErrs []string       `json:"harness_errs,omitempty"`
-	AbandonedPanics []string   `json:"abandoned_panics,omitempty"`
+	Kind            string         `json:"kind"` // "summary"
+	Runs            int            `json:"runs"`
+	Outcomes        map[string]int `json:"outcomes"`
+	EndReasons      map[string]int `json:"end_reasons"`
+	NonTrivial      int            `json:"nontrivial"`
+	Sigs            []uint64       `json:"sigs"` // hashes of behaviour signatures of non-trivial runs
+	Faults          map[string]int `json:"faults"`
+	Probes          map[string]int `json:"probes"`
+	Choices         int            `json:"choices"`
+	Steps           int64          `json:"steps"`
+	SimMs           int64          `json:"sim_ms"`
+	Preempt         int64          `json:"preemptions"`
+	SelfChecks      int            `json:"selfchecks"`
+	SelfCheckBad    int            `json:"selfcheck_bad"`
+	Known           map[string]int `json:"known"`
+	Samples         []any          `json:"samples"`
+	WallS           float64        `json:"wall_s"`
+	Variants        int            `json:"variants"`
+	HarnessErrs     []string       `json:"harness_errs,omitempty"`
+	AbandonedPanics []string       `json:"abandoned_panics,omitempty"`
 }
 
 func seedFor(base uint64, prop string, idx int) uint64 {
@@ -197,7 +197,7 @@ func workerSearch(t *testing.T, job *Job, enc *json.Encoder) {
 					reported["known:"+v.Signature] = true
 					_ = enc.Encode(map[string]any{"kind": "known", "result": res})
 				}
-			} else if !reported[v.Signature] && nviol < 4 {
+			} else if !reported[v.Signature] && nviol < 12 {
 				reported[v.Signature] = true
 				nviol++
 				_ = enc.Encode(map[string]any{"kind": "violation", "result": res})
